@@ -2,6 +2,7 @@ package drv
 
 import (
 	"a0verif/instr"
+	"math"
 	"os"
 	"path/filepath"
 	"strings"
@@ -34,6 +35,7 @@ type c07Plan struct {
 }
 
 type c07Stats struct {
+	statHistories                             int
 	digest                                    uint64
 	idChecks, newOK, newFail, devReads, procs int
 	fired                                     map[string]int
@@ -98,11 +100,34 @@ func (g *c07Engine) judge(cp *c07Plan, st *c07Stats) (*histVerdict, error) {
 			return &histVerdict{Class: "identity", Key: "identity/real/at=" + strconv.Itoa(res.IdBad[0]) + "/" + hk,
 				Detail: fmt.Sprintf("with nothing swapped, after step %d (-1 = before the first call) %s", res.IdBad[0], res.IdInfo)}, nil
 		}
+		var ones [128]int
+		decoded := 0
 		for i, o := range res.Outcomes {
 			op := &hp.Ops[i]
 			if op.K == "new" && o.IsNil && ref.ValidWordCount(op.N) {
 				st.newOK++
 				st.realOutputs = append(st.realOutputs, fmt.Sprintf("%d/%d/%s", op.N, op.Lang, o.Out))
+				if ref.Supported(op.Lang) {
+					m, _ := strconv.Unquote(o.Out)
+					if ent, _, derr := ref.Decode(m, op.Lang); derr == nil && len(ent) >= 16 {
+						decoded++
+						for b := 0; b < 128; b++ {
+							ones[b] += int(ent[b/8]>>(7-uint(b%8))) & 1
+						}
+					}
+				}
+			}
+		}
+		// long processes on the real source: no bit position of the first 128 entropy bits may be stuck or
+		// grossly biased (7 sigma: false-alarm probability about 3e-10 per history)
+		if decoded >= 1000 {
+			st.statHistories++
+			sigma := math.Sqrt(float64(decoded)) / 2
+			for b := 0; b < 128; b++ {
+				if dev := math.Abs(float64(ones[b]) - float64(decoded)/2); dev > 7*sigma {
+					return &histVerdict{Class: "biased", Key: fmt.Sprintf("biased/bit=%d", b),
+						Detail: fmt.Sprintf("over %d default-source mnemonics of one process, entropy bit %d is set %d times (expected %d +- %.0f): the output is not a function of the OS source's bytes only", decoded, b, ones[b], decoded/2, 7*sigma)}, nil
+				}
 			}
 		}
 		return nil, nil
@@ -489,6 +514,7 @@ func CheckC07(e *Env) (int, error) {
 		}
 		od.Add(i, st.digest)
 		tot.idChecks += st.idChecks
+		tot.statHistories += st.statHistories
 		tot.newOK += st.newOK
 		tot.newFail += st.newFail
 		tot.devReads += st.devReads
@@ -545,8 +571,9 @@ func CheckC07(e *Env) (int, error) {
 		"environment_reads_with_opaque_names":    envOpaque,
 		"histories_with_environment_set":         envRuns,
 		"long_histories_of_3000_calls":           nLong,
-		"raw_violations":                         len(viols),
-		"outcome_digest_simulated_source_runs":   od.String(),
+		"real_source_histories_bit_frequency_tested": tot.statHistories,
+		"raw_violations":                       len(viols),
+		"outcome_digest_simulated_source_runs": od.String(),
 	}
 	if err := e.WriteEvidence("C07", "exploration", cov, []string{
 		"package initialisation order puts a0verif/harness/presim before github.com/islishude/bip39 (self-checked by every coldsim worker: SEAM-FAILED otherwise)",
